@@ -124,7 +124,11 @@ pub fn consolidate_shards_in_directory(
                     &finished_shards.last().unwrap().shard_hash
                 );
 
+                #[cfg(xet_verif)]
+                utils::verif::crash_point("consolidate_before_remove", &path.to_string_lossy());
                 std::fs::remove_file(path)?;
+                #[cfg(xet_verif)]
+                utils::verif::crash_point("consolidate_after_remove", &path.to_string_lossy());
             }
 
             cur_idx = ub_idx;
